@@ -40,10 +40,23 @@ pub const PREDS: [&str; 12] = [
     "high", "low", "default", "high_enc", "high_dec", "low_enc", "low_dec", "default_enc", "default_dec", "rs_enc", "rs_dec", "rule",
 ];
 
+/// A panic inside a predicate is data (value 9), never a failure of the harness.
+fn value_guarded(pred: &str, k: usize, r: usize) -> u8 {
+    std::panic::catch_unwind(|| value(pred, k, r)).unwrap_or(9)
+}
+
 fn row_runs(pred: &str, k: usize) -> Vec<(u8, usize)> {
+    // fast path: the whole row under one guard; on a panic redo it value by value
+    if let Ok(runs) = std::panic::catch_unwind(|| row_runs_with(pred, k, value)) {
+        return runs;
+    }
+    row_runs_with(pred, k, value_guarded)
+}
+
+fn row_runs_with(pred: &str, k: usize, f: fn(&str, usize, usize) -> u8) -> Vec<(u8, usize)> {
     let mut runs: Vec<(u8, usize)> = Vec::new();
     for r in 0..=TOP {
-        let v = value(pred, k, r);
+        let v = f(pred, k, r);
         match runs.last_mut() {
             Some((lv, n)) if *lv == v => *n += 1,
             _ => runs.push((v, 1)),
@@ -138,31 +151,31 @@ pub fn main(args: &Args) -> i32 {
     }
     cfgs.sort_unstable();
     cfgs.dedup();
-    let sizes = [0usize, 1, 2, 63, 64, usize::MAX];
+    let sizes = [0usize, 1, 2, 63, 64, 66, 100, 130, usize::MAX];
     let mut nval = 0u64;
     for (ci, (k, r)) in cfgs.iter().enumerate() {
         for (si, sb) in sizes.iter().enumerate() {
             for kind in ["high", "low", "default"] {
-                let v = match kind {
+                let v = std::panic::catch_unwind(|| match kind {
                     "high" => HighRate::<Naive>::validate(*k, *r, *sb),
                     "low" => LowRate::<Naive>::validate(*k, *r, *sb),
                     _ => DefaultRate::<Naive>::validate(*k, *r, *sb),
-                };
-                let mut o = Obj::new().str("ev", "val").str("kind", kind).us("k", *k).us("r", *r).us("sb", *sb).raw("validate", &ret_json(v));
+                });
+                let mut o = Obj::new().str("ev", "val").str("kind", kind).us("k", *k).us("r", *r).us("sb", *sb).raw("validate", &v.map_or_else(|_| util::panic_json("panic"), ret_json));
                 // the provided validate of the encoder / decoder traits
-                let ve = match kind {
+                let ve = std::panic::catch_unwind(|| match kind {
                     "high" => HighRateEncoder::<Naive>::validate(*k, *r, *sb),
                     "low" => LowRateEncoder::<Naive>::validate(*k, *r, *sb),
                     _ => DefaultRateEncoder::<Naive>::validate(*k, *r, *sb),
-                };
-                let vd = match kind {
+                });
+                let vd = std::panic::catch_unwind(|| match kind {
                     "high" => HighRateDecoder::<Naive>::validate(*k, *r, *sb),
                     "low" => LowRateDecoder::<Naive>::validate(*k, *r, *sb),
                     _ => DefaultRateDecoder::<Naive>::validate(*k, *r, *sb),
-                };
-                o = o.raw("validate_enc", &ret_json(ve)).raw("validate_dec", &ret_json(vd));
+                });
+                o = o.raw("validate_enc", &ve.map_or_else(|_| util::panic_json("panic"), ret_json)).raw("validate_dec", &vd.map_or_else(|_| util::panic_json("panic"), ret_json));
                 // constructors (small shard sizes only: allocation), on a rotating subset
-                if *sb <= 64 && (ci + si) % 3 == 0 {
+                if *sb <= 200 && (ci + si) % 3 == 0 {
                     let enc = std::panic::catch_unwind(|| match kind {
                         "high" => HighRateEncoder::new(*k, *r, *sb, Naive::new(), None).map(|_| ()),
                         "low" => LowRateEncoder::new(*k, *r, *sb, Naive::new(), None).map(|_| ()),
@@ -193,6 +206,27 @@ pub fn main(args: &Args) -> i32 {
                         let d = std::panic::catch_unwind(|| ReedSolomonDecoder::new(*k, *r, *sb).map(|_| ()));
                         o = o.raw("rs_enc", &e.map_or_else(|_| util::panic_json("panic"), ret_json));
                         o = o.raw("rs_dec", &d.map_or_else(|_| util::panic_json("panic"), ret_json));
+                    }
+                }
+                // reset of an existing small object to this configuration (small shard sizes only: allocation)
+                if *sb <= 200 && (ci + si) % 3 != 1 {
+                    let renc = std::panic::catch_unwind(|| match kind {
+                        "high" => HighRateEncoder::new(2, 1, 64, Naive::new(), None).unwrap().reset(*k, *r, *sb),
+                        "low" => LowRateEncoder::new(1, 2, 64, Naive::new(), None).unwrap().reset(*k, *r, *sb),
+                        _ => DefaultRateEncoder::new(2, 1, 64, Naive::new(), None).unwrap().reset(*k, *r, *sb),
+                    });
+                    let rdec = std::panic::catch_unwind(|| match kind {
+                        "high" => HighRateDecoder::new(2, 1, 64, Naive::new(), None).unwrap().reset(*k, *r, *sb),
+                        "low" => LowRateDecoder::new(1, 2, 64, Naive::new(), None).unwrap().reset(*k, *r, *sb),
+                        _ => DefaultRateDecoder::new(2, 1, 64, Naive::new(), None).unwrap().reset(*k, *r, *sb),
+                    });
+                    o = o.raw("reset_enc", &renc.map_or_else(|_| util::panic_json("panic"), ret_json));
+                    o = o.raw("reset_dec", &rdec.map_or_else(|_| util::panic_json("panic"), ret_json));
+                    if kind == "default" {
+                        let e = std::panic::catch_unwind(|| ReedSolomonEncoder::new(2, 1, 64).unwrap().reset(*k, *r, *sb));
+                        let d = std::panic::catch_unwind(|| ReedSolomonDecoder::new(2, 1, 64).unwrap().reset(*k, *r, *sb));
+                        o = o.raw("rs_reset_enc", &e.map_or_else(|_| util::panic_json("panic"), ret_json));
+                        o = o.raw("rs_reset_dec", &d.map_or_else(|_| util::panic_json("panic"), ret_json));
                     }
                 }
                 trace.line(&o.done());
